@@ -4,7 +4,7 @@ import SciVerif.Tie.Pins
 /-! Tie A obligations for C16 on the current source. -/
 namespace SciVerif.Tie
 -- functions the model relies on without an obligation of its own naming them (pinned by bin/mkpins):
--- PIN-ALSO: Scipipe.InPort_Ready Scipipe.OutPort_Ready Scipipe.InParamPort_Ready Scipipe.OutParamPort_Ready Scipipe.InPort_Disconnect Scipipe.OutPort_Disconnect Scipipe.OutParamPort_Disconnect Scipipe.InPort_SetReady Scipipe.OutPort_SetReady Scipipe.InParamPort_SetReady Scipipe.OutParamPort_SetReady Scipipe.Sink_From Scipipe.Sink_FromParam Scipipe.Workflow_AddProc Scipipe.Workflow_Proc Scipipe.InParamPort_FromStr
+-- PIN-ALSO: Scipipe.InPort_Ready Scipipe.OutPort_Ready Scipipe.InParamPort_Ready Scipipe.OutParamPort_Ready Scipipe.InPort_Disconnect Scipipe.OutPort_Disconnect Scipipe.OutParamPort_Disconnect Scipipe.InPort_SetReady Scipipe.OutPort_SetReady Scipipe.InParamPort_SetReady Scipipe.OutParamPort_SetReady Scipipe.Sink_From Scipipe.Sink_FromParam Scipipe.Workflow_AddProc Scipipe.Workflow_Proc Scipipe.InParamPort_FromStr Scipipe.BaseProcess_InitInPort Scipipe.BaseProcess_InitOutPort Scipipe.BaseProcess_InitInParamPort Scipipe.BaseProcess_InitOutParamPort Scipipe.Process_In Scipipe.Process_Out Scipipe.Process_InParam Scipipe.Process_OutParam Scipipe.NewProc Scipipe.Workflow_NewProc Scipipe.NewBaseProcess Scipipe.BaseProcess_InPort Scipipe.BaseProcess_OutPort Scipipe.BaseProcess_InParamPort Scipipe.BaseProcess_OutParamPort Scipipe.BaseProcess_InPorts Scipipe.BaseProcess_OutPorts Scipipe.BaseProcess_InParamPorts Scipipe.BaseProcess_OutParamPorts Scipipe.InPort_SetProcess Scipipe.OutPort_SetProcess Scipipe.InPort_Process Scipipe.OutPort_Process Scipipe.OutParamPort_Process Scipipe.InParamPort_Process Scipipe.Workflow_AddProcs Scipipe.Workflow_Procs Scipipe.BaseProcess_DeleteInPort Scipipe.BaseProcess_DeleteOutPort Scipipe.BaseProcess_DeleteInParamPort Scipipe.BaseProcess_DeleteOutParamPort Scipipe.OutParamPort_removeRemotePort Scipipe.NewSink Scipipe.Workflow_SetSink
 open SciVerif.Generated SciVerif.Graph
 
 theorem generated_run_sem_good : good runSem := by decide
@@ -39,33 +39,68 @@ theorem c16_on_source (wf : Wf) (hac : acyclic wf) (ts : List Nat) (hts : ∀ t 
 
 
 
+
 -- BEGIN PINS (written by bin/mkpins; do not edit by hand)
 /-- the Go functions this property's model and obligations were written against have exactly the
 pinned skeletons (SHA-256 prefix of the atom list) -/
 theorem pinned_skeletons_c16 :
     pinsOk
     [("Scipipe.#decls", "7633eb8a74616d59"),
+     ("Scipipe.BaseProcess_DeleteInParamPort", "2d3e0aee982e111c"),
+     ("Scipipe.BaseProcess_DeleteInPort", "307bc0f4dc52af7c"),
+     ("Scipipe.BaseProcess_DeleteOutParamPort", "c10e7aa0567cbb4f"),
+     ("Scipipe.BaseProcess_DeleteOutPort", "6aaa448dbdf404df"),
+     ("Scipipe.BaseProcess_InParamPort", "762e516a21734441"),
+     ("Scipipe.BaseProcess_InParamPorts", "8d8b15053d2db87f"),
+     ("Scipipe.BaseProcess_InPort", "c48f106edaf85c15"),
+     ("Scipipe.BaseProcess_InPorts", "133f57ebe0b686e2"),
+     ("Scipipe.BaseProcess_InitInParamPort", "95bcc8146185d37d"),
+     ("Scipipe.BaseProcess_InitInPort", "9316d3eb7fe6dfdf"),
+     ("Scipipe.BaseProcess_InitOutParamPort", "014c85d604f145e4"),
+     ("Scipipe.BaseProcess_InitOutPort", "36e733e6aa5f2644"),
+     ("Scipipe.BaseProcess_OutParamPort", "63c94d8619dd6290"),
+     ("Scipipe.BaseProcess_OutParamPorts", "7dc497a7f8b09750"),
+     ("Scipipe.BaseProcess_OutPort", "c8e19a354c1d12ce"),
+     ("Scipipe.BaseProcess_OutPorts", "c28508c01ef2c5b0"),
      ("Scipipe.BaseProcess_Ready", "71e6e586b2c2ee4c"),
      ("Scipipe.InParamPort_FromStr", "82f932a5d19fe28f"),
+     ("Scipipe.InParamPort_Process", "9128e2db1c92bb3d"),
      ("Scipipe.InParamPort_Ready", "338b778c4d30bafe"),
      ("Scipipe.InParamPort_SetReady", "1d81cf7a998ea142"),
      ("Scipipe.InPort_Disconnect", "2d058fead9c77bdd"),
+     ("Scipipe.InPort_Process", "5542a8a79e33c127"),
      ("Scipipe.InPort_Ready", "e7c4d0f1d8ce491c"),
+     ("Scipipe.InPort_SetProcess", "f6f6fdb502d7548a"),
      ("Scipipe.InPort_SetReady", "28ab5e17a572a39d"),
+     ("Scipipe.NewBaseProcess", "44bcb5795d2c0c17"),
+     ("Scipipe.NewProc", "87c3cac25a30f9dc"),
+     ("Scipipe.NewSink", "a492528b88e6e985"),
      ("Scipipe.OutParamPort_Disconnect", "1a71a40de11b44f8"),
+     ("Scipipe.OutParamPort_Process", "b038149df3b6386e"),
      ("Scipipe.OutParamPort_Ready", "4e1487fcb30ac148"),
      ("Scipipe.OutParamPort_SetReady", "ac7757c9aa44795d"),
+     ("Scipipe.OutParamPort_removeRemotePort", "c4aa2de45b72f662"),
      ("Scipipe.OutPort_Disconnect", "2d058fead9c77bdd"),
+     ("Scipipe.OutPort_Process", "5542a8a79e33c127"),
      ("Scipipe.OutPort_Ready", "e7c4d0f1d8ce491c"),
+     ("Scipipe.OutPort_SetProcess", "f6f6fdb502d7548a"),
      ("Scipipe.OutPort_SetReady", "28ab5e17a572a39d"),
+     ("Scipipe.Process_In", "5c55db4a17c5e657"),
+     ("Scipipe.Process_InParam", "c8e48924f704b354"),
+     ("Scipipe.Process_Out", "a8336ddcad83e773"),
+     ("Scipipe.Process_OutParam", "c9bda6ebf69a5f59"),
      ("Scipipe.Sink_From", "c72c1df4af5c0d68"),
      ("Scipipe.Sink_FromParam", "be5cd0eedafe3561"),
      ("Scipipe.Workflow_AddProc", "bc7195e782cf60e1"),
+     ("Scipipe.Workflow_AddProcs", "dfa1b13bda2696c6"),
+     ("Scipipe.Workflow_NewProc", "0c40600b4fc86df2"),
      ("Scipipe.Workflow_Proc", "d0b2b26039d5b3fe"),
+     ("Scipipe.Workflow_Procs", "3ea5684b3662347e"),
      ("Scipipe.Workflow_Run", "7a0a30673bb14a0e"),
      ("Scipipe.Workflow_RunTo", "7a0a61bbd770cc4c"),
      ("Scipipe.Workflow_RunToProcs", "397593629fe3c425"),
      ("Scipipe.Workflow_RunToRegex", "bee9945ee58084e1"),
+     ("Scipipe.Workflow_SetSink", "7da5ff0b1e07295f"),
      ("Scipipe.Workflow_readyToRun", "378c8cdc8eb779a8"),
      ("Scipipe.Workflow_reconnectDeadEndConnections", "9ed90a908028bbfc"),
      ("Scipipe.Workflow_runProcs", "e319d71e11b8d924"),
